@@ -8,7 +8,7 @@ python reading of the manual's template syntax (below)."""
 import os, re
 import common, mdrun, confgen
 
-ALPH = [b'a', b'b', b'A', b'Zq', b'\\', b'1', b'0', b'2', b'.', b'$', b'{', b'}', b' ', b'path', b'x', b'\\1', b'${path}', b'\\0.1', b'${mac}']
+ALPH = [b'a', b'b', b'A', b'Zq', b'\\', b'[', b']^', b'_`', b'1', b'0', b'2', b'.', b'$', b'{', b'}', b' ', b'path', b'x', b'\\1', b'${path}', b'\\0.1', b'${mac}']
 
 
 def gen_text(rng, n=None):
@@ -87,7 +87,7 @@ def run_case(ck, rng, stats, samples):
             # more than nine groups: \\10, \\11, ... are references like any other
             pat, flags = b'^' + b'(.)?' * 12, rng.choice([b'', b'u'])
         elif kind == 0:
-            pat, flags = b'(.*)', b''
+            pat, flags = b'(.*)', rng.choice([b'', b'l', b'u'])        # whole values, the characters between Z and a included
         elif kind == 1:
             pat, flags = b'^(.)(.*)$', b''
         elif kind == 2:
